@@ -6,6 +6,7 @@ CONSTANTS
   ApplyFilter = "le"
   SyncedAfter = TRUE
   SnapHasSynced = TRUE
+  Pipelined = FALSE
 INVARIANTS RemoteExactlyOnce SyncedAfterEffect
 POSTCONDITION AllConsumed
 CHECK_DEADLOCK FALSE
